@@ -210,6 +210,25 @@ func TestC09Restart(t *testing.T) {
 		if maxSize < 1 {
 			maxSize = 4096
 		}
+		// A file larger than the whole cache goes regardless of its age, so among
+		// duplicates the expected winner is the most recently accessed one THAT
+		// FITS; only when none fits does the key disappear altogether.
+		oversizeDupWinner := false
+		for _, e := range ents {
+			w := winner[e.key]
+			if w == e || r4k(e.fsize) > maxSize {
+				continue
+			}
+			if r4k(w.fsize) > maxSize || e.atime.After(w.atime) {
+				if r4k(w.fsize) > maxSize {
+					oversizeDupWinner = true
+				}
+				winner[e.key] = e
+			}
+		}
+		if oversizeDupWinner {
+			E.Label("dup=newest-duplicate-oversize")
+		}
 		storage := rapid.SampledFrom([]string{"zstd", "uncompressed"}).Draw(t, "storage")
 		codec := rapid.SampledFrom([]string{"go", "cgo"}).Draw(t, "codec")
 		var ls []string
